@@ -25,7 +25,10 @@
 (* socket read appending chunk c to the receive buffer, Decode is one       *)
 (* iteration of the server's inner loop (RespValue::decode, and on a value  *)
 (* handle_command + encode + write), End closes.  LiveSend/LiveClose is the *)
-(* same connection seen from a real client socket.  Probe is one decode     *)
+(* same connection seen from a real client socket; BigOpen/BigSend/BigClose *)
+(* a live connection whose first frame is tens of kilobytes (kept          *)
+(* run-length encoded), so that behaviour of the connection loop that      *)
+(* depends on how much is buffered is exercised.  Probe is one decode      *)
 (* call on an arbitrary buffer, Command one handle_command + encode.        *)
 (*                                                                         *)
 (* PROPERTIES.  C20: decoded = sent for every chunking, one reply per       *)
@@ -244,10 +247,12 @@ VARIABLES wire,      \* bytes the client has not yet got through to the server
           sent,      \* the frames the client sends on this connection (values)
           decoded,   \* frames the server has decoded so far
           out,       \* replies written so far (byte strings)
-          st         \* "idle" | "reading" | "decoding" | "live" | "closed"
-rvars == <<wire, buf, sent, decoded, out, st>>
+          st,        \* "idle" | "reading" | "decoding" | "live" | "closed"
+          big        \* live connection opened with a big frame: what is left of that frame to send (else NoBig)
+rvars == <<wire, buf, sent, decoded, out, st, big>>
+NoBig == [on |-> FALSE]
 
-RInit == wire = <<>> /\ buf = <<>> /\ sent = <<>> /\ decoded = <<>> /\ out = <<>> /\ st = "idle"
+RInit == wire = <<>> /\ buf = <<>> /\ sent = <<>> /\ decoded = <<>> /\ out = <<>> /\ st = "idle" /\ big = NoBig
 
 IsPrefix(p, s) == Len(p) <= Len(s) /\ SubSeq(s, 1, Len(p)) = p
 Drop(s, n) == SubSeq(s, n + 1, Len(s))
@@ -258,12 +263,13 @@ Open(w, live) ==
     /\ LET pa == ParseAll(w) IN pa.ok /\ sent' = pa.vs
     /\ wire' = w /\ buf' = <<>> /\ decoded' = <<>> /\ out' = <<>>
     /\ st' = IF live THEN "live" ELSE "reading"
+    /\ big' = NoBig
 
 \* socket.read_buf returned the next chunk c
 Deliver(c) ==
     /\ st = "reading" /\ c # <<>> /\ IsPrefix(c, wire)
     /\ wire' = Drop(wire, Len(c)) /\ buf' = buf \o c /\ st' = "decoding"
-    /\ UNCHANGED <<sent, decoded, out>>
+    /\ UNCHANGED <<sent, decoded, out, big>>
 
 \* one iteration of the inner loop: res / val / rb are what RespValue::decode returned and the
 \* bytes written for it.  Decoding commits only when a whole frame is there.
@@ -275,25 +281,60 @@ Decode(res, val, rb) ==
           /\ buf' = Drop(buf, r.j - 1) /\ st' = "decoding"
        \/ /\ r.k = "need" /\ res = "need"
           /\ st' = "reading" /\ UNCHANGED <<buf, decoded, out>>
-    /\ UNCHANGED <<wire, sent>>
+    /\ UNCHANGED <<wire, sent, big>>
 
 \* the client has sent everything and everything was answered
 End ==
     /\ st = "reading" /\ wire = <<>>
     /\ decoded = sent /\ Len(out) = Len(sent) /\ buf = <<>>
-    /\ st' = "idle" /\ UNCHANGED <<wire, buf, sent, decoded, out>>
+    /\ st' = "idle" /\ UNCHANGED <<wire, buf, sent, decoded, out, big>>
 
 \* the same connection observed from a client socket of a running server
 LiveSend(c) ==
-    /\ st = "live" /\ c # <<>> /\ IsPrefix(c, wire)
-    /\ wire' = Drop(wire, Len(c)) /\ UNCHANGED <<buf, sent, decoded, out, st>>
+    /\ st = "live" /\ ~big.on /\ c # <<>> /\ IsPrefix(c, wire)
+    /\ wire' = Drop(wire, Len(c)) /\ UNCHANGED <<buf, sent, decoded, out, st, big>>
 \* the client half-closes and reads rb until the server closes
 LiveClose(rb) ==
-    /\ st = "live" /\ wire = <<>>
+    /\ st = "live" /\ ~big.on /\ wire = <<>>
     /\ LET pr == ParseReplies(rb) IN
           /\ pr.ok /\ Len(pr.vs) = Len(sent)
           /\ \A i \in 1..Len(sent) : ReplyValOK(sent[i], pr.vs[i])
-    /\ st' = "idle" /\ UNCHANGED <<wire, buf, sent, decoded, out>>
+    /\ st' = "idle" /\ UNCHANGED <<wire, buf, sent, decoded, out, big>>
+
+\* ---- a live connection whose first frame is BIG: ECHO of n copies of byte c (tens of kilobytes, so
+\* that the connection loop's handling of a grown receive buffer is exercised), followed by the
+\* ordinary stream w.  The frame is never expanded: its bytes are BigHeader(n), the run c^n, CR LF;
+\* a chunk is [pre, run, post] = bytes of the header, number of payload bytes, bytes of CRLF \o w.
+BigHeader(n) == <<STAR, 50>> \o CRLF \o <<DOLLAR, 52>> \o CRLF \o ECHOb \o CRLF \o <<DOLLAR>> \o Dec(n) \o CRLF
+BigEcho(c, n) == [t |-> "bigecho", c |-> c, n |-> n]
+BigOpen(c, n, w) ==
+    /\ st = "idle"
+    /\ c \in 0..255 \ {CR, LF} /\ n \in 32..MaxBulk
+    /\ LET pa == ParseAll(w) IN pa.ok /\ sent' = <<BigEcho(c, n)>> \o pa.vs
+    /\ wire' = CRLF \o w /\ buf' = <<>> /\ decoded' = <<>> /\ out' = <<>>
+    /\ big' = [on |-> TRUE, a |-> BigHeader(n), run |-> n, c |-> c, n |-> n]
+    /\ st' = "live"
+\* the client writes the next bytes of the stream: nothing is skipped, nothing reordered
+BigSend(ch) ==
+    /\ st = "live" /\ big.on
+    /\ Len(ch.pre) + ch.run + Len(ch.post) > 0
+    /\ IsPrefix(ch.pre, big.a)
+    /\ ch.run \in 0..big.run /\ (ch.run > 0 => ch.pre = big.a)
+    /\ IsPrefix(ch.post, wire) /\ (ch.post # <<>> => ch.pre = big.a /\ ch.run = big.run)
+    /\ big' = [big EXCEPT !.a = Drop(@, Len(ch.pre)), !.run = @ - ch.run]
+    /\ wire' = Drop(wire, Len(ch.post))
+    /\ UNCHANGED <<buf, sent, decoded, out, st>>
+\* the client half-closes and reads until the server closes: rep = [head, c, run, rest] are the bytes
+\* received, with their first long run of one byte (c^run) left unexpanded.  Exactly: the bulk reply
+\* of the big ECHO, then one reply per following frame.
+BigClose(rep) ==
+    /\ st = "live" /\ big.on /\ big.a = <<>> /\ big.run = 0 /\ wire = <<>>
+    /\ rep.head = <<DOLLAR>> \o Dec(big.n) \o CRLF /\ rep.c = big.c /\ rep.run = big.n
+    /\ IsPrefix(CRLF, rep.rest)
+    /\ LET pr == ParseReplies(Drop(rep.rest, 2)) IN
+          /\ pr.ok /\ Len(pr.vs) = Len(sent) - 1
+          /\ \A i \in 1..Len(pr.vs) : ReplyValOK(sent[i + 1], pr.vs[i])
+    /\ st' = "idle" /\ big' = NoBig /\ UNCHANGED <<wire, buf, sent, decoded, out>>
 
 \* ---- C21: one decode call on an arbitrary receive buffer b.  res in value / need / error
 \* / panic / abort, rest = bytes left in the buffer, peak = bytes reserved during the call
@@ -357,7 +398,7 @@ LegacyDecode(rb, eat) ==
           /\ st' = "reading" /\ UNCHANGED <<decoded, out>>
        \/ /\ r.k = "open"
           /\ st' = "closed" /\ UNCHANGED <<buf, decoded, out>>
-    /\ UNCHANGED <<wire, sent>>
+    /\ UNCHANGED <<wire, sent, big>>
 
 TypeOK == st \in {"idle", "reading", "decoding", "live", "closed"} /\ Len(out) <= Len(sent) + 1
 =============================================================================
